@@ -302,6 +302,53 @@ def c02_closebank(op, impl, model):
     return None
 
 
+def c19_emissions(op, impl, model):
+    """w.* wrapper ops: <bank 16> <position 6> ..  =>  ok <bank 16> <position 6> [..]: same books except the emissions pool / credit"""
+    if not op.startswith("w."):
+        return None
+    i, m = _nums(impl), _nums(model)
+    if not i or not m or len(i) != len(m) or len(i) < 22:
+        return None
+    diff = [k for k in range(len(i)) if i[k] != m[k]]
+    if not diff or not set(diff) <= {13, 20, 22}:
+        return None
+    try:
+        pre = [int(x) for x in op.split()[1:]]
+    except ValueError:
+        return None
+    ci, cm = pre[13] - i[13], pre[13] - m[13]
+    return (f"C19 emission rewards credited to the position are {ci} bits where rate x time x position size gives {cm} bits "
+            f"(pool before {pre[13]}, after {i[13]}; position's unclaimed rewards {i[20]} vs {m[20]}): not in proportion to the position's size: {op[:300]}")
+
+
+def c16_tags(op, impl, model):
+    """acct.tags <16 slots x 5> <bank tag> ..: validate_asset_tags"""
+    if op.startswith("acct.tags") and impl.strip() == "ok" and model.startswith("err 6047"):
+        return (f"C16 validate_asset_tags ACCEPTS a bank whose class does not go with the account's positions (staked-collateral positions and "
+                f"default-class positions would be mixed; AssetTagMismatch expected): {op[:500]}")
+    return None
+
+
+def c20_venue_value(op, impl, model):
+    """ig.[ksd](pyth|swb): the exchange-rate-adjusted price out of the real adapter vs price x (truncated) exchange rate"""
+    kind = op.split(" ", 1)[0]
+    if kind not in ("ig.kpyth", "ig.kswb", "ig.spyth", "ig.sswb", "ig.dpyth", "ig.dswb"):
+        return None
+    def val(x):
+        t = x.split()
+        return int(t[1]) if len(t) == 2 and t[0] in ("some", "ok") else None
+    vi, vm = val(impl), val(model)
+    if vi is None:
+        return None
+    if vm is None:
+        return f"C20 a venue-adjusted price ({vi}) is produced where the exact re-scaling overflows / is undefined (must fail closed): {op}"
+    if vi > vm >= 0:
+        venue = {"k": "Kamino", "s": "Solend", "d": "Drift"}[kind[3]]
+        return (f"C20 the {venue} exchange-rate-adjusted price out of the oracle adapter is {vi} where the reported price times the venue's exchange rate gives {vm}: "
+                f"the adjusted price exceeds price x exchange rate: {op}")
+    return None
+
+
 WITNESS = {
     "C04": [c04_health, emode_dupes("C04")],
     "C13": [emode_dupes("C13"), accepted_invalid_curve("C13")],
@@ -310,13 +357,14 @@ WITNESS = {
     "C05": [c05_health, c05_liq, value_scaling("C05"), c05_conditions],
     "C07": [c07_health, c07_soc],
     "C09": [c09_health],
-    "C16": [c16_foc],
+    "C16": [c16_foc, c16_tags],
     "C03": [ixf_tokens("C03")],
     "C17": [c17_limits],
+    "C19": [c19_emissions],
     "C02": [c02_closebank],
     "C11": [c11_health],
     "C10": [bracket_conditions("C10"), c10_health],
-    "C20": [c20_fail_closed],
+    "C20": [c20_venue_value, c20_fail_closed],
     "C01": [ixf_tokens("C01")],
 }
 
